@@ -221,6 +221,8 @@ def run(chk):
     from rules import c04
     nt = c04.tree_fresh(chk, db, "C01-D4.tree")
     chk.floor("C01-D4.tree", nt, 4, "changes of the loaded point set in GridLocalPolynomial")
+    na = c04.argmin_rule(chk, db, "C01-D4.tree")
+    chk.floor("C01-D4.tree", na, 1, "index-recording argmin loops with a known maximum (root search of buildTree: every parent-less point becomes a root)")
 
     # ------------------------------------------------------------------ D5 / D6
     from rules import vander
@@ -241,6 +243,10 @@ def run(chk):
             n6 += 1
             chk.ob("C01-D6.insert", o["function"], o["construct"], o["ok"], o["where"], o["detail"], o["expected"])
     chk.floor("C01-D6.insert", n6, 7, "expansion obligations shared with C09")
+    chk.rule("C01-D6.relations", "the incremental surplus update after a single inserted point reaches every point whose surplus depends on it: the downward hierarchy relation (getKid) "
+                                 "is the inverse of the upward relations (getParent, getStepParent) (obligations of C09-D4)")
+    nr6 = c09.hierarchy_relations(chk, db, "C01-D6.relations")
+    chk.floor("C01-D6.relations", nr6, 4, "local polynomial rules with closed-form hierarchy relations")
 
     return ("Static rule discharge over the five grid classes (all instantiations): must-pass-after analysis on the CFG tying every change of the stored values / loaded points to a decision "
             "about the hierarchical coefficients (method summaries are computed as a fixpoint over calls on the same object), the merge-order obligations shared with C07, the guard of the "
